@@ -93,14 +93,14 @@ theorem client_progress (p : Pdu) (hc : conforming p = true) (hw : PduWF p) (mor
     simp [feed, hd, hb, hlen]
   rw [hf]
   have hl0 : Link { c with buf := p.encode } S f :=
-    hl.of_coreEq ⟨rfl, rfl, rfl, rfl, rfl, rfl⟩ |> fun h => ⟨h.inReset, h.pending, h.installed, h.serial, h.vwf⟩
+    hl.of_coreEq ⟨rfl, rfl, rfl, rfl, rfl, rfl, rfl⟩ |> fun h => ⟨h.inReset, h.pending, h.installed, h.serial, h.vwf⟩
   have hs : split [p] (pduLen p) = ([p], 0, false) := by
     have h8 : 8 ≤ pduLen p := by
       obtain ⟨v, ty, s, body, hfr⟩ := encode_framed p hc hw
       exact hfr.lenLo
     rw [split_cons_pos p [] _ (by omega) hc (Nat.le_refl _)]
     simp [split]
-  obtain ⟨S', _, hr', _, _, hdone, hl', _, hlink⟩ :=
+  obtain ⟨S', _, hr', _, _, hdone, hl', _, hlink, _⟩ :=
     pump_aligned [p] { c with buf := p.encode } t S f [] (pduLen p + 1) hi hr hl0 hd
       (by simp [encodeAll]) (by intro q hq; simp at hq; subst hq; exact hw) (by show p.encode.length + 1 ≤ _; omega)
       (by show (split [p] p.encode.length).2.2 = false; rw [hlen, hs])
@@ -133,22 +133,29 @@ theorem caches_independent (c : Sess) (t : Table) (S : List Vrp) (hi : TableInv 
     exact hany.frame.other v hv
 
 /-- **When a session ends — EOF, cancellation (`close`) or a framing error — none of its cache's
-    VRPs remain.** -/
+    VRPs remain, and the VRPs of every other cache (and of other sessions on the same address) are
+    exactly what they were.** -/
 theorem session_end_clears (c : Sess) (t : Table) (S : List Vrp) (hi : TableInv t) (hr : R t S)
     (hok : SessOK c) (hd : c.done = false) :
-    ((close c t).1.done = true ∧ ∀ v ∈ abs (close c t).2, v.cache ≠ c.src) ∧
+    ((close c t).1.done = true ∧ (∀ v ∈ abs (close c t).2, v.cache ≠ c.src) ∧
+      ∀ v, v.cache ≠ c.src → (v ∈ abs (close c t).2 ↔ v ∈ abs t)) ∧
     (fromBytes c.buf = .error → ∀ fuel, (pump (fuel + 1) c t).1.done = true ∧
-        ∀ v ∈ abs (pump (fuel + 1) c t).2, v.cache ≠ c.src) := by
+        (∀ v ∈ abs (pump (fuel + 1) c t).2, v.cache ≠ c.src) ∧
+        ∀ v, v.cache ≠ c.src → (v ∈ abs (pump (fuel + 1) c t).2 ↔ v ∈ abs t)) := by
   obtain ⟨hany, hdone⟩ := finish_any c t S hi hr hok
   have hcl : ∀ v ∈ abs (finish c t).2, v.cache ≠ c.src := by
     intro v hv
     exact hany.cleared hdone v ((hany.rel.mem v).1 hv)
+  have hoth : ∀ v, v.cache ≠ c.src → (v ∈ abs (finish c t).2 ↔ v ∈ abs t) := by
+    intro v hv
+    rw [hany.rel.mem, hr.mem]
+    exact hany.frame.other v hv
   constructor
   · have : close c t = finish c t := by simp [close, hd]
-    rw [this]; exact ⟨hdone, hcl⟩
+    rw [this]; exact ⟨hdone, hcl, hoth⟩
   · intro herr fuel
     have : pump (fuel + 1) c t = finish c t := by simp only [pump, herr]
-    rw [this]; exact ⟨hdone, hcl⟩
+    rw [this]; exact ⟨hdone, hcl, hoth⟩
 
 /-- non-vacuity: a declared length of 0 and a fixed-size PDU with the wrong length are framing
     errors; an unknown type with a sane length is not -/
